@@ -17,6 +17,10 @@ def run(tier):
     run = Run("C15", tier)
     sc = vlib.scratch()
     run.mc("Marshal", "MC_Marshal.cfg", timeout=600)
+    # the two length identities for EVERY slot count and buffer length (Apalache, symbolic, integer arithmetic only)
+    ok, out = vlib.apalache("MarshalLen", "Inv", length=0, timeout=300)
+    if ok is False: raise vlib.Infra("Apalache refutes the length identities of the specification itself:\n" + out[-2000:])
+    run.extra["length_identities_unbounded"] = "discharged by Apalache (MarshalLen.tla, --length=0 --inv=Inv)" if ok else "not discharged (Apalache unavailable or timed out)"
     traces = []
     for what in ("objects", "bytes"):
         cases = run.generate("Gen_Marshal", what, env={"WHAT": what})
